@@ -500,6 +500,17 @@ func run(r *hk.Run) {
 		if !strings.HasPrefix(cls, "ok") {
 			return
 		}
+		// what the decoder accepts is a well-formed value: a Buffer-backed element holds exactly Len octets
+		// (C03_decode_wf; a short read that is not reported leaves Len > len(Buffer))
+		for i, e := range res.msg {
+			if e != nil && i < len(m.slots) && m.slots[i].isBuf && m.slots[i].HasLen && int(e.Len) != len(e.Oct) {
+				d := fmt.Sprintf("%s: Len=%d but Buffer holds %d octets", m.slots[i].Name, e.Len, len(e.Oct))
+				fail(r, "C03", site, "accepted-value-ill-formed", hk.Hex(in), d)
+				fail(r, "C04", site, "accepted-value-ill-formed", hk.Hex(in), d)
+				fail(r, "C01", site, "accepted-value-ill-formed", hk.Hex(in), d)
+				break
+			}
+		}
 		// C03: re-encode is stable
 		obj := m.New()
 		setMsg(obj, res.msg)
@@ -573,7 +584,7 @@ func run(r *hk.Run) {
 	wantDec := prop == "C01" || prop == "C03" || prop == "C04" || prop == "C10"
 	wantEnc := prop == "C02" || prop == "C04" || prop == "C10" || prop == "C03"
 	wantDisp := prop == "C05" || prop == "C01" || prop == "C10" || prop == "C02"
-	lean := prop == "C03" // needs accepted inputs, not every truncation (C10 quantifies over rejected inputs too)
+	lean := false // every truncation for every property (a truncated element that is accepted shows up as an ill-formed value)
 	decStreams := func() {
 		// S1 corpus: the repository's own vectors, through the message decoders
 		for _, dir := range []string{"GmmMessage", "GsmMessage"} {
@@ -752,6 +763,31 @@ func run(r *hk.Run) {
 				copy(in, m.mandatory(r.Rng, true))
 			}
 			decCase("malformed", m, in, n > 4)
+		}
+		// S4b padding: a valid mandatory part followed by a long run of one ignorable octet (work and
+		// allocation must stay linear: the oracle in decCase measures both)
+		if prop == "C01" {
+			implOnly = true
+			for _, m := range msgs {
+				used := map[int]bool{}
+				for _, s := range m.slots {
+					if !s.Mand {
+						used[s.Iei] = true
+					}
+				}
+				pad := byte(0)
+				for u := 0; u < 128; u++ {
+					if !used[u] {
+						pad = byte(u)
+						break
+					}
+				}
+				base := m.mandatory(r.Rng, true)
+				for _, n := range []int{600, 3000, 12000} {
+					decCase("padding", m, append(hk.Exact(base), bytes.Repeat([]byte{pad}, n)...), true)
+				}
+			}
+			implOnly = false
 		}
 		// S5 length sweep, implementation only (C01 oracles: no panic, no hang, bounded allocation):
 		// every declared length of every element that carries one, with the content present and cut short
